@@ -189,6 +189,32 @@ def run(chk):
                       {"kind": "sql-tables", "sql": a["sql"][0], "dialect": d, "ast": small,
                        "impl": sqlcheck.impl_tables(im[0]), "spec": sqlcheck.spec_tables(a), "model": sqlcheck.model_tables(a),
                        "deviation_classes": a["spec"][0]["deviations"]})
+    # the text family (constructs outside the typed AST: join spellings, UPDATE / MERGE / COPY spellings, ...) under EVERY installed
+    # sqlfluff dialect in both tiers, against the tables the property's reading of core SQL gives them (written down by hand in
+    # c09_texts.EXPECTED_TABLES; the model is not consulted)
+    import c09_texts
+    text_listed = {(tp[0], tp[1]): e["id"] for e in chk.findings if e.get("status") == "finding" for tp in e.get("text_pairs", [])}
+    tjobs = [(tid, sql, d) for tid, sql in c09_texts.TEXTS if tid in c09_texts.EXPECTED_TABLES for d in sqlcheck.all_dialects()]
+    tres = sqlimpl.run_cases([{"sql": sql, "dialect": d, "want": ("tables",)} for _, sql, d in tjobs], chunksize=16)
+    text_reported = 0
+    for (tid, sql, d), r in zip(tjobs, tres):
+        it = sqlcheck.impl_tables(r)
+        if it is None:
+            continue
+        es, et = c09_texts.EXPECTED_TABLES[tid]
+        exp = {"source": sorted(x if x.startswith("/") else "<default>." + x for x in es), "target": sorted("<default>." + x for x in et),
+               "intermediate": []}
+        chk.count(canon_json(["text", tid, d]), True)
+        st.c["text-family"] += 1
+        if it == exp:
+            continue
+        fid = text_listed.get((tid, d))
+        if fid is not None:
+            chk.known(fid)
+        elif text_reported < 3:
+            text_reported += 1
+            chk.violation(f"table lineage of a core statement (text family `{tid}`) under dialect {d} is not exact",
+                          {"kind": "sql-tables", "sql": sql, "dialect": d, "impl": it, "spec": exp, "text_id": tid})
     # statements that move no data (over the generated NoopExtractor table)
     noop_checked = 0
     types = drv.ask1({"cmd": "dispatch"})
@@ -227,6 +253,11 @@ def run(chk):
 
 def replay(chk, obj):
     r = obj["replay"]
+    if r.get("kind") == "sql-tables" and "ast" not in r:
+        i = sqlimpl.run_case({"sql": r["sql"], "dialect": r["dialect"], "want": ("tables",)})
+        it = sqlcheck.impl_tables(i)
+        print(json.dumps({"sql": r["sql"], "impl": it, "spec": r["spec"]}, indent=1))
+        return 1 if it is not None and it != r["spec"] else 0
     if r.get("kind") == "sql-tables":
         drv = Driver()
         a = sqlcheck.model_eval(drv, [[r["ast"]]])[0]
